@@ -1,0 +1,60 @@
+//go:build verif && amd64
+
+package dsp
+
+const verifHasAsm = true
+
+func verifSetAVX2(v bool) { hasAVX2 = v }
+
+// verifInstallAsm is a copy of the assignments in dsp_amd64.go's init(), with
+// the AVX2 block under an explicit flag.  VerifSelfCheck compares its effect
+// with what init() really installed, so a drift is detected, not trusted.
+func verifInstallAsm(avx2 bool) {
+	SSE4x4 = sse4x4SSE2
+	SSE16x16 = sse16x16SSE2
+
+	FTransformWHT = fTransformWHTSSE2
+	TransformWHT = transformWHTSSE2
+
+	PredLuma16[0] = dc16SSE2
+	PredLuma16[1] = tm16SSE2
+	PredLuma16[2] = ve16SSE2
+	PredLuma16[3] = he16SSE2
+
+	PredChroma8[0] = dc8uvSSE2
+	PredChroma8[1] = tm8uvSSE2
+	PredChroma8[2] = ve8uvSSE2
+	PredChroma8[3] = he8uvSSE2
+
+	FTransform = fTransformSSE2
+	ITransform = iTransformSSE2
+	Transform = transformTwoDecSSE2
+	TransformUV = transformUVSSE2
+
+	AddGreenToBlueAndRedFunc = addGreenToBlueAndRedSSE2
+	SubtractGreenFunc = subtractGreenSSE2
+
+	if avx2 {
+		SSE16x16 = sse16x16AVX2
+		AddGreenToBlueAndRedFunc = addGreenToBlueAndRedAVX2
+		SubtractGreenFunc = subtractGreenAVX2
+
+		FTransform = fTransformAVX2
+		FTransform2 = fTransform2AVX2
+		ITransform = iTransformAVX2
+		Transform = transformTwoDecAVX2
+		TransformUV = transformUVAVX2
+	}
+}
+
+// Assembly entry points that no table slot or wrapper reaches on its own.
+
+// VerifYUVPackedBatch runs the batch YUV→NRGBA converters directly
+// (width must be a multiple of 4 for SSE2, of 8 for AVX2).
+func VerifYUVPackedBatch(avx2 bool, y []byte, packedUV []uint32, dst []byte, width int) {
+	if avx2 {
+		yuvPackedToNRGBABatchAVX2(y, packedUV, dst, width)
+		return
+	}
+	yuvPackedToNRGBABatchSSE2(y, packedUV, dst, width)
+}
